@@ -221,15 +221,18 @@ def staircase_sweep(ctx, tmpdir, maxlen, depth):
             if seq[-1] == 'a' and n > 1 and seq[-2] == 'a':
                 continue
             for step in (0, 1, 2, 3, 4):
-                idx += 1
-                if idx % ctx.nshards != ctx.shard:
-                    continue
-                head = ' '.join(seq)
-                lines = [' ' * (step * k) + head + ' a' for k in range(depth)]
-                text = '\n'.join(lines)[:4096] + '\n'
-                execute(ctx, text, 'Html', {}, 'str', 'staircase-sweep', depth_known=depth, tmpdir=tmpdir)
-                if idx % 7 == 0:
-                    execute(ctx, text, 'Markdown', {}, 'str', 'staircase-sweep', depth_known=depth, tmpdir=tmpdir)
+                # each level: the markers followed by a word or by nothing (an empty item), the levels separated by a line
+                # break or by a blank line; the last level always carries a word
+                for tail, sep in ((' a', '\n'), ('', '\n'), (' a', '\n\n'), ('', '\n\n')):
+                    idx += 1
+                    if idx % ctx.nshards != ctx.shard:
+                        continue
+                    head = ' '.join(seq)
+                    lines = [' ' * (step * k) + head + (tail if k < depth - 1 else ' a') for k in range(depth)]
+                    text = sep.join(lines)[:4096] + '\n'
+                    execute(ctx, text, 'Html', {}, 'str', 'staircase-sweep', depth_known=depth, tmpdir=tmpdir)
+                    if idx % 7 == 0:
+                        execute(ctx, text, 'Markdown', {}, 'str', 'staircase-sweep', depth_known=depth, tmpdir=tmpdir)
     ctx.count('staircase-sweep', 'documents', idx // ctx.nshards)
 
 
